@@ -27,9 +27,9 @@ EXPLANATION = (
     "continuations through the invariant stuck_forever (control-loop steps, time, further releases / restarts / resumes, "
     "reloading sends of unaccepted events never process the lost tick, start a worker or end the run: the handler stays "
     "running forever), which rests on a proved clock-erasure simulation of the whole reducer (a replay at any clock yields "
-    "the same serialised context when the policy ignores elapsed time). C14_partial: for every schedule of the first control "
-    "loop with no retry / waiter timer pending, reloading after the cut at any clock gives exactly the live reducer state "
-    "serialised and restarted, no exit command, and the same (empty) set of retry / waiter timers. Tie: generated retry / "
+    "the same serialised context, first-attempt timestamps aside, when the policy ignores elapsed time). C14_partial: for every schedule of the first control "
+    "loop with no retry / waiter timer pending, reloading after the cut at any clock gives the live reducer state (up to first-attempt timestamps, which waiters keep "
+    "for the invocations suspended in them) serialised and restarted, no exit command, and the same (empty) set of retry / waiter timers. Tie: generated retry / "
     "wait / fan-out workflows run on the REAL stack (ServerRuntimeDecorator(IdleReleaseDecorator(PersistenceDecorator("
     "BasicRuntime)))) + _WorkflowService under the virtual-time loop with idle_timeout below / at / above the pending delays, "
     "process stops and service sends at scheduler-chosen quiescent instants; every reducer call of every incarnation, the "
